@@ -3,12 +3,17 @@
 package main
 
 import (
+	"context"
 	"encoding/json"
 	"flag"
 	"fmt"
 	"os"
+	"os/exec"
 	"sort"
 	"strconv"
+	"sync"
+	"syscall"
+	"time"
 )
 
 func usage() {
@@ -81,7 +86,26 @@ func main() {
 			return
 		}
 		res := RunComponent(c, *tier, *seed, *driver, cs)
+		if len(res.Suspects) > 0 && os.Getenv("VERIF_NO_ISOLATE") == "" {
+			// write what there is, then REPLACE this process (its runaway goroutine cannot be stopped otherwise) by
+			// the isolating pass, which re-runs every suspect alone in a child process and writes the final result
+			tmp := *out + ".partial"
+			if *out == "-" {
+				tmp = fmt.Sprintf("%s/gmharness-partial-%d.json", os.TempDir(), os.Getpid())
+			}
+			writeJSON(tmp, res)
+			exe, err := os.Executable()
+			if err == nil {
+				err = syscall.Exec(exe, []string{exe, "isolate", os.Args[2], tmp, *out}, os.Environ())
+			}
+			fmt.Fprintln(os.Stderr, "isolate: exec failed:", err)
+		}
 		writeJSON(*out, res)
+	case "isolate":
+		if len(os.Args) != 5 {
+			usage()
+		}
+		isolate(os.Args[2], os.Args[3], os.Args[4])
 	default:
 		usage()
 	}
@@ -97,4 +121,74 @@ func isFlagSet(fs *flag.FlagSet, name string) bool {
 		}
 	})
 	return set
+}
+
+// isolate: second pass after a memory runaway (see engine.go). Every suspect is run alone in a child process
+// (`replay -nomodel`, 20 s per-case watchdog, 6 GB memory guard, 60 s overall); a child that is killed, times out, or
+// reports violations makes its case a violation of the property under check.
+func isolate(comp, partial, out string) {
+	var res Result
+	b, err := os.ReadFile(partial)
+	if err == nil {
+		err = json.Unmarshal(b, &res)
+	}
+	if err != nil {
+		fmt.Fprintln(os.Stderr, "isolate: cannot read the partial result:", err)
+		os.Exit(2)
+	}
+	os.Remove(partial)
+	exe, _ := os.Executable()
+	type verdict struct {
+		viols []Violation
+		note  string
+	}
+	vs := make([]verdict, len(res.Suspects))
+	var wg sync.WaitGroup
+	sem := make(chan struct{}, 4)
+	for i, cs := range res.Suspects {
+		wg.Add(1)
+		go func(i int, cs Case) {
+			defer wg.Done()
+			sem <- struct{}{}
+			defer func() { <-sem }()
+			cj, _ := json.Marshal(cs)
+			ctx, cancel := context.WithTimeout(context.Background(), 60*time.Second)
+			defer cancel()
+			cmd := exec.CommandContext(ctx, exe, "replay", comp, "-case", string(cj), "-nomodel", "-out", "-")
+			cmd.Env = append(os.Environ(), "VERIF_NO_ISOLATE=1", "VERIF_CASE_TIMEOUT=20", "VERIF_MEM_LIMIT_GB=6")
+			o, err := cmd.Output()
+			var r Result
+			if err != nil || json.Unmarshal(o, &r) != nil {
+				vs[i].viols = []Violation{{Component: comp, Property: "*", Clause: "runaway-in-" + comp,
+					Detail: fmt.Sprintf("the case, run alone in a child process, did not finish (%v): killed, out of memory or hung", err), Case: cs}}
+				return
+			}
+			vs[i].viols = r.Violations
+		}(i, cs)
+	}
+	wg.Wait()
+	culprits := 0
+	for _, v := range vs {
+		if len(v.viols) > 0 {
+			culprits++
+		}
+		for _, x := range v.viols {
+			res.NViolations++
+			if res.ViolClauses == nil {
+				res.ViolClauses = map[string]int{}
+			}
+			res.ViolClauses[x.Property+"/"+x.Clause]++
+			if len(res.Violations) < maxKept {
+				res.Violations = append(res.Violations, x)
+			}
+		}
+	}
+	res.Notes = append(res.Notes, fmt.Sprintf("isolate: %d suspects re-run alone, %d of them failed", len(res.Suspects), culprits))
+	if culprits == 0 {
+		// the runaway happened but no single case reproduces it: still not a clean run
+		res.NViolations++
+		res.Violations = append(res.Violations, Violation{Component: comp, Property: "*", Clause: "runaway-in-" + comp,
+			Detail: "the harness process ran away with memory, but none of the cases in flight reproduces it when run alone", Case: Case{Op: "none"}})
+	}
+	writeJSON(out, &res)
 }
